@@ -95,6 +95,8 @@ fn adversarial(rng: &mut Rng) -> Vec<(String, &'static str, Vec<u8>)> {
     for fmt in ["json", "yaml", "toml", "msgpack"] {
         for shape in ["arr", "map"] {
             for depth in [3000usize, 20000] {
+                // (libyaml's scanner is quadratic in the flow depth: half the depth, a quarter of the time)
+                let depth = if fmt == "yaml" { depth / 2 } else { depth };
                 v.push((format!("deep-{shape}-{depth}"), fmt, crate::depth::gen_deep(fmt, shape, depth)));
             }
         }
